@@ -6,6 +6,7 @@ import (
 	"math"
 	"math/rand"
 	"net"
+	"net/url"
 	"strconv"
 	"strings"
 
@@ -39,7 +40,9 @@ type c14Case struct {
 }
 
 var c14Names = []string{"svc", "my-service", "web_1", "svc with space", "svc\"quote", "sérvice", "a", "tags", "weight", "s\\b"}
-var c14Addrs = []string{"10.1.2.3", "192.168.0.9", "::1", "2001:db8::1", "fe80::1", "backend.internal", "", "host-1"}
+
+// (the last two: link-local addresses with a zone; in a URL the zone is written %25<zone>, RFC 6874)
+var c14Addrs = []string{"10.1.2.3", "192.168.0.9", "::1", "2001:db8::1", "fe80::1", "backend.internal", "", "host-1", "fe80::1%eth0", "fe80::1%bce0"}
 var c14OtherTags = []string{"v1", "blue", "prod", "a b", "q\"uote", "back\\slash", "comma,inside", "ünï", " padded ", "tab\there", "x=y", "urlprefix", "", "\"", "new\nline"}
 var c14Hosts = []string{"", "a.com", "A.Com", "x.y.org:8080", "*.wild.net", "$DC.dc.test"}
 var c14Paths = []string{"/", "/foo", "/Foo/Bar", "/a/b/", "/$DC/x"}
@@ -277,7 +280,14 @@ func c14Denotes(d *route.RouteDef, t *c14Tag, cs *c14Case, hostport string) stri
 			wantOpts["redirect"] = p[0]
 		}
 	}
-	if d.Dst != wantDst {
+	if zi := strings.IndexByte(hostport, '%'); zi >= 0 && len(strings.SplitN(t.Redirect, ",", 2)) != 2 {
+		// an address with a zone: the destination must be that very host, however the '%' is written in the command
+		u, err := url.Parse(d.Dst)
+		host, _, _ := net.SplitHostPort(hostport)
+		if err != nil || u.Hostname() != host || u.Scheme+"://" != wantDst[:strings.Index(wantDst, "//")+2] {
+			return fmt.Sprintf("dst %q does not denote the host %q (parsed: %v %v)", d.Dst, host, u, err)
+		}
+	} else if d.Dst != wantDst {
 		return fmt.Sprintf("dst %q want %q", d.Dst, wantDst)
 	}
 	if t.Weight != "" {
